@@ -1,0 +1,7 @@
+//go:build !verif
+
+package fdpool
+
+func verifPoint(string) {}
+
+func (p *Pool) verifEvent(string, *Handle, int64) {}
